@@ -97,7 +97,9 @@ func (c *deployCommand) preRun(cmd *cobra.Command, args []string) error {
 	}
 
 	if c.args.ServiceOptions.TLSEnabled {
-		if len(c.args.ServiceOptions.Hosts) == 0 {
+		// Normalize() above turns an empty host list into the single wildcard
+		// host "", so check for that as well.
+		if len(c.args.ServiceOptions.Hosts) == 0 || slices.Contains(c.args.ServiceOptions.Hosts, "") {
 			return fmt.Errorf("host must be set when using TLS")
 		}
 
